@@ -840,6 +840,110 @@ M("C14", "R-days-in-month-to-init", UCF,
         self.days_in_month = 30
 ''')])
 
+# ---------------------------------------------------------------------------- C18
+M("C18", "remaining-initialised-before-loop", PARF,
+  '''        for month_index in range(0, constants_inputs["NMONTHS"]):
+            remaining_kcals = food_daily_maximum.kcals
+''', '''        remaining_kcals = food_daily_maximum.kcals
+        for month_index in range(0, constants_inputs["NMONTHS"]):
+''', "C18.GREEDY")
+M("C18", "consume-calls-swapped", PARF,
+  '''            fish_consumption.append(
+                consume(
+                    interpreted_results_round1.fish_kcals_equivalent[month_index].kcals
+                )
+            )
+            meat_consumption.append(
+                consume(
+                    interpreted_results_round1.meat_kcals_equivalent[month_index].kcals
+                )
+            )''', '''            meat_consumption.append(
+                consume(
+                    interpreted_results_round1.meat_kcals_equivalent[month_index].kcals
+                )
+            )
+            fish_consumption.append(
+                consume(
+                    interpreted_results_round1.fish_kcals_equivalent[month_index].kcals
+                )
+            )''', "C18.ORDER")
+M("C18", "fill-donor-not-debited", PARF,
+  '''                arr[neg_idx] += adjustment
+                arr[i] -= adjustment''', '''                arr[neg_idx] += adjustment''', "C18.RETIME")
+M("C18", "fill-amount-not-capped-by-donor", PARF,
+  '''                adjustment = min(-arr[neg_idx], arr[i])''', '''                adjustment = -arr[neg_idx]''', "C18.RETIME")
+M("C18", "cap-uses-max", PARF,
+  '''        if (
+            interpreted_results_round1.percent_people_fed
+            > MINIMUM_PERCENT_FED_BEFORE_NONHUMAN_CONSUMPTION_ALLOWED
+        ):''', '''        if (
+            interpreted_results_round1.percent_people_fed
+            < MINIMUM_PERCENT_FED_BEFORE_NONHUMAN_CONSUMPTION_ALLOWED
+        ):''', "C18.CAP")
+M("C18", "cap-fraction-not-divided", PARF,
+  '''            kcals_daily_maximum = constants_inputs["NUTRITION"]["KCALS_DAILY"] * (
+                interpreted_results_round1.percent_people_fed / 100
+            )''', '''            kcals_daily_maximum = constants_inputs["NUTRITION"]["KCALS_DAILY"] * (
+                interpreted_results_round1.percent_people_fed
+            )''', "C18.CAP")
+M("C18", "consume-does-not-reduce", PARF,
+  '''                consumed = min(food_kcals, remaining_kcals)
+                remaining_kcals -= consumed''', '''                consumed = min(food_kcals, remaining_kcals)
+                remaining_kcals -= 0''', "C18.GREEDY")
+M("C18", "stored-food-reads-previous-month", PARF,
+  '''                    interpreted_results_round1.stored_food_kcals_equivalent[
+                        month_index
+                    ].kcals''', '''                    interpreted_results_round1.stored_food_kcals_equivalent[
+                        month_index - 1
+                    ].kcals''', "C18.ORDER")
+M("C18", "scp-series-keyed-as-sugar", PARF,
+  '''            "methane_scp": Food(
+                kcals=scp_consumption,''', '''            "methane_scp": Food(
+                kcals=cs_consumption,''', "C18.ORDER")
+M("C18", "retime-adjustment-sign", PARF,
+  '''        new_round_2_meat_kcals = round_2_meat_kcals + adjustment_to_round2''',
+  '''        new_round_2_meat_kcals = round_2_meat_kcals - adjustment_to_round2''', "C18.RETIME")
+M("C18", "retime-dominance-assert-dropped", PARF,
+  '''        assert np.all(
+            strictly_positive_difference >= -0.001
+        )  # make sure it's indeed positive within a rounding error
+''', '', "C18.RETIME")
+M("C18", "bump-can-lower", PARF,
+  '''        adjusted_feed_increase = np.maximum(
+            np.zeros(len(adjusted_feed_increase)), adjusted_feed_increase
+        )
+''', '', "C18.BUMP")
+M("C18", "R-cap-as-min", PARF,
+  '''        if (
+            interpreted_results_round1.percent_people_fed
+            > MINIMUM_PERCENT_FED_BEFORE_NONHUMAN_CONSUMPTION_ALLOWED
+        ):
+            kcals_daily_maximum = (
+                constants_inputs["NUTRITION"]["KCALS_DAILY"]
+                * fraction_to_feed_people_first
+            )
+
+        else:
+            kcals_daily_maximum = constants_inputs["NUTRITION"]["KCALS_DAILY"] * (
+                interpreted_results_round1.percent_people_fed / 100
+            )''', '''        if (
+            MINIMUM_PERCENT_FED_BEFORE_NONHUMAN_CONSUMPTION_ALLOWED
+            >= interpreted_results_round1.percent_people_fed
+        ):
+            kcals_daily_maximum = (
+                interpreted_results_round1.percent_people_fed
+                * constants_inputs["NUTRITION"]["KCALS_DAILY"]
+                / 100
+            )
+        else:
+            kcals_daily_maximum = (
+                fraction_to_feed_people_first
+                * constants_inputs["NUTRITION"]["KCALS_DAILY"]
+            )''', None)
+M("C18", "R-retime-rewritten", PARF,
+  '''        new_round_2_meat_kcals = round_2_meat_kcals + adjustment_to_round2''',
+  '''        new_round_2_meat_kcals = round_1_meat_kcals + strictly_positive_difference''', None)
+
 # ---------------------------------------------------------------------------- runner
 
 COPY = ["src", "scenarios", "scripts", "plot_manuscript_figures.py", "tests"]
